@@ -96,9 +96,12 @@ fn c12_stream_iteration_order() {
         std::mem::forget(r);
         i += 1;
     }
-    let mut it = s.iter();
-    let got = [it.next().copied(), it.next().copied(), it.next().copied(), it.next().copied(), it.next().copied()];
-    kani::assert(it.next().is_none(), "C13: exactly the five added values, nothing duplicated");
+    let got = {
+        let mut it = s.iter();
+        let got = [it.next().copied(), it.next().copied(), it.next().copied(), it.next().copied(), it.next().copied()];
+        kani::assert(it.next().is_none(), "C13: exactly the five added values, nothing duplicated");
+        got
+    };
     kani::assert(got[0] == Some(vals[0].0), "C12: previous generation 0, first inserted");
     kani::assert(got[1] == Some(vals[4].0), "C12: previous generation 0, second inserted");
     kani::assert(got[2] == Some(vals[1].0), "C12: previous generation 2 after previous generation 0");
